@@ -10,7 +10,6 @@ position; `clone(location)` re-positions on the same buffer).  The recursion is 
 the "pointers must point strictly backwards" rule and is *the* reason decoding terminates.
 -/
 import HickoryVerif.Model.Name
-
 set_option linter.unusedVariables false
 
 namespace HickoryVerif
